@@ -77,6 +77,10 @@ def file_text(i, n, place, imports, defs, strict=True):
     if resolve(i, "X", imports, defs) is not None:
         body += " ('ax' ax=AX%d)?" % i
         lines.append("AX%d: X;" % i)
+    # qualified names: every directly imported file that defines X is also addressed by its namespace, as a rule reference and as a class
+    for j in imports[i]:
+        if "X" in defs[j]:
+            body += " ('qx%d' qx%d=%s.X)? ('rx%d' rx%d=[%s.X])?" % (j, j, ns(j, place), j, j, ns(j, place))
     lines.append("U%d: 'u%d' %s;" % (i, i, body))
     for nm in defs[i]:
         lines.append("%s: '%s%d' v=INT;" % (nm, nm.lower(), i))
@@ -107,6 +111,31 @@ def on_stack_only(i, nm, imports, defs, n):
     visit(0, [])
     tgt = resolve(i, nm, imports, defs)
     return tgt is not None and tgt in paths.get(i, []) and tgt != i
+
+
+def qualified_on_stack(msg, n, place, imports, defs):
+    """the message names '<namespace>.X' of a file that some importer addresses by its qualified name while that file is still being imported
+    (the same defect as import_cycle_back_reference: the rules of a grammar on the import stack are not visible yet)"""
+    import re as _re
+
+    mt = _re.search(r'"([\w.]+)\.X"', msg)
+    if not mt:
+        return False
+    paths, order = {}, []
+
+    def visit(k, st):
+        if k in order:
+            return
+        order.append(k)
+        paths[k] = st
+        for j in imports[k]:
+            visit(j, st + [k])
+    visit(0, [])
+    for j in range(n):
+        if ns(j, place) == mt.group(1) and "X" in defs[j]:
+            if any(j in imports[i] and j in paths.get(i, []) for i in range(n)):
+                return True
+    return False
 
 
 def run_case(n, place, imports, defs, strict=True):
@@ -141,6 +170,8 @@ def run_case(n, place, imports, defs, strict=True):
             return True, obs, None
         key = None
         if "Unexisting rule" in e.message and any(on_stack_only(i, nm, imports, defs, n) for i in range(n) for nm in NAMES):
+            key = "import_cycle_back_reference"
+        if "Unexisting rule" in e.message and qualified_on_stack(e.message, n, place, imports, defs):
             key = "import_cycle_back_reference"
         return False, obs, key
     except Exception as e:
@@ -211,6 +242,27 @@ def probe(mm, n, place, imports, defs):
                                 bad.append(("alias rule AX%d yields" % i, type(ma.us[0].ax)._tx_fqn, want))
                         except TextXError as e:
                             bad.append(("alias rule AX%d rejects the keyword of its own X" % i, str(e)[:80]))
+    # qualified rule references and qualified class names written in the grammar files
+    for i in range(n):
+        for j in imports[i]:
+            if "X" not in defs[j]:
+                continue
+            want = ns(j, place) + ".X"
+            ucls = mm[ns(i, place) + ".U%d" % i]
+            for an in ("qx%d" % j, "rx%d" % j):
+                got = ucls._tx_attrs[an].cls
+                if got is not mm[want]:
+                    bad.append(("attribute %s of U%d written with the qualified name %s has class" % (an, i, want), got._tx_fqn, want))
+            for k in range(n):
+                if "X" not in defs[k]:
+                    continue
+                try:
+                    m = mm.model_from_str("u%d qx%d x%d 7" % (i, j, k))
+                    ok = type(m.us[0].__dict__["qx%d" % j]) is mm[want]
+                except TextXError:
+                    ok = None
+                if (k == j) != bool(ok) or (ok is False):
+                    bad.append(("qualified rule reference %s in f%d accepts keyword of f%d = %s" % (want, i, k, ok), want, k))
     return bad
 
 
@@ -270,7 +322,7 @@ def run(ctx):
                 "file using only the names it can resolve (and an alias rule 'AX<i>: X;'); cases whose files are not all reachable from the root are skipped; non-trivial = at least one import",
         "exhaustive": True, "cases": len(cs),
     }, ["every file i defines U<i> using X and Y unqualified; the root reaches U<i> through abstract rules V<k> along a spanning tree of the import graph",
-        "qualified access is checked through metamodel['<namespace>.<Rule>'] (qualified rule references inside rule bodies are not accepted by the grammar parser)"]
+        "qualified access is checked through metamodel['<namespace>.<Rule>'] and through qualified rule references / qualified class names written in the importing file (namespace = dotted path from the root grammar's directory)"]
 
 
 def replay(p):
